@@ -14,7 +14,7 @@ max_da_gas_price_change_percent, and the activity adjustment yields the change i
 -max_change; (3) rejection without state change: in update_l2_block_data every write to a field of
 self and every call taking &mut self is dominated by the false edge of `height != l2_block_height + 1`,
 whose true edge is an error exit; (4) the update methods contain no panic edge (saturating / checked
-arithmetic only) apart from listed exceptions.
+arithmetic only) apart from listed exceptions. (6) every return of update_da_gas_price / update_exec_gas_price has written the clamped price (no early exit around the clamp).
 """
 NOT_DECIDED = """Numeric bounds after accumulation (values); the DA-record path's range checks beyond shape."""
 
